@@ -131,24 +131,52 @@ func (w *world) emitDriver() string {
 		sb.WriteString("  dec _ := none\n\n")
 	}
 	// oracle decoder
-	sb.WriteString("def decOra (ts : List String) : Option (Ora × List String) := do\n")
-	var inits []string
+	// the decoder is emitted in chunks: one do-block over all oracles makes the compiler's work grow much faster than
+	// the number of oracles
+	type oraField struct{ name, ty, init string }
+	var fields []oraField
 	for _, n := range w.oraOrd {
 		o := w.oracles[n]
 		parts := splitTop(o.typ, " → ")
 		if len(parts) == 1 {
-			fmt.Fprintf(&sb, "  let (%s, ts) ← (dec ts : Option ((%s) × _))\n", n, o.typ)
-			inits = append(inits, fmt.Sprintf("%s := %s", n, n))
+			fields = append(fields, oraField{n, "(" + o.typ + ")", "%s"})
 		} else {
 			res := parts[len(parts)-1]
-			fmt.Fprintf(&sb, "  let (%s, ts) ← (dec ts : Option (Table (%s) × _))\n", n, res)
 			var as, encs []string
 			for i := range parts[:len(parts)-1] {
 				as = append(as, fmt.Sprintf("a%d", i))
 				encs = append(encs, fmt.Sprintf("enc a%d", i))
 			}
-			inits = append(inits, fmt.Sprintf("%s := fun %s => %s.get (%s)", n, strings.Join(as, " "), n, strings.Join(encs, " ++ ")))
+			fields = append(fields, oraField{n, "(Table (" + res + "))", fmt.Sprintf("fun %s => %%s.get (%s)", strings.Join(as, " "), strings.Join(encs, " ++ "))})
 		}
+	}
+	const chunk = 6
+	var inits []string
+	nchunks := 0
+	for i := 0; i < len(fields); i += chunk {
+		j := i + chunk
+		if j > len(fields) {
+			j = len(fields)
+		}
+		var tys, names []string
+		for _, f := range fields[i:j] {
+			tys = append(tys, f.ty)
+			names = append(names, f.name)
+		}
+		fmt.Fprintf(&sb, "def decOraP%d (ts : List String) : Option ((%s) × List String) := do\n", nchunks, strings.Join(tys, " × "))
+		for _, f := range fields[i:j] {
+			fmt.Fprintf(&sb, "  let (%s, ts) ← (dec ts : Option (%s × _))\n", f.name, f.ty)
+		}
+		fmt.Fprintf(&sb, "  pure ((%s), ts)\n\n", strings.Join(names, ", "))
+		for k, f := range fields[i:j] {
+			proj := fmt.Sprintf("p%d", nchunks) + tupleProj(k, j-i)
+			inits = append(inits, fmt.Sprintf("%s := %s", f.name, fmt.Sprintf(f.init, "("+proj+")")))
+		}
+		nchunks++
+	}
+	sb.WriteString("def decOra (ts : List String) : Option (Ora × List String) := do\n")
+	for k := 0; k < nchunks; k++ {
+		fmt.Fprintf(&sb, "  let (p%d, ts) ← decOraP%d ts\n", k, k)
 	}
 	if len(inits) == 0 {
 		sb.WriteString("  pure ({}, ts)\n\n")
